@@ -239,6 +239,10 @@ func main() {
 		warm()
 		return
 	}
+	if os.Args[1] == "conformance" {
+		conformance()
+		return
+	}
 	if os.Args[1] == "build" { // development aid: vcheck build <dir> [plain|race]
 		variant := ""
 		if len(os.Args) > 3 {
